@@ -18,7 +18,10 @@ the data are tie-rich).
   the invariant (theorem `search_total` in `Props/C17.lean`).
 * `save` / `load` — the text layout of `Save(os, false)` / `Load(is, false)`
   on the level of integer tokens, with `Node::Check` including the
-  child-before-parent test.
+  child-before-parent test and the shared-child rejection (fix 90dea91).
+* `init` — `Initialize`/`init`: the recursive construction (vantage point,
+  distances, `nth_element` as a parameter, bounds, children before the
+  parent, bucket leaves).
 -/
 namespace GeoVerif.VPTree
 
@@ -223,17 +226,34 @@ def loadNode (bucket : Nat) : List Int → Except String (Node × List Int)
     else if rest.length < bucket then .error "Bad leaf data"
     else .ok (.leaf (rest.take bucket), rest.drop bucket)
 
-def loadNodes (bucket : Nat) (numpoints : Int) : Nat → Nat → List Int → Except String (List Node)
-  | 0, _, _ => .ok []
-  | m + 1, i, toks =>
+/-- the test-and-set `if (used[c]) throw …; used[c] = true` of `Load` for one child pointer (fix 90dea91: each node may be
+    the child of at most one parent); `used` is the list of the children claimed so far (`c < i ≤ treesize` by `Check`, so
+    the `vector<bool>` access is in range) -/
+def claim (used : List Int) (c : Int) : Option (List Int) :=
+  if c < 0 then some used else if used.contains c then none else some (c :: used)
+
+/-- `for (l < 2)` over the child pointers of an internal node; bucket nodes claim nothing -/
+def claimNode (used : List Int) : Node → Option (List Int)
+  | .inner _ _ _ c0 _ _ c1 =>
+    match claim used c0 with
+    | none => none
+    | some u => claim u c1
+  | .leaf _ => some used
+
+def loadNodes (bucket : Nat) (numpoints : Int) : Nat → Nat → List Int → List Int → Except String (List Node)
+  | 0, _, _, _ => .ok []
+  | m + 1, i, used, toks =>
     match loadNode bucket toks with
     | .error e => .error e
     | .ok (node, rest) =>
       -- `-1 <= index` is implied by the two constructors only for index = -1: a stored index < -1 is rejected here
       if !(nodeCheck numpoints (i : Int) node) then .error "Bad node" else
-      match loadNodes bucket numpoints m (i + 1) rest with
-      | .error e => .error e
-      | .ok ns => .ok (node :: ns)
+      match claimNode used node with
+      | none => .error "Bad child pointers"
+      | some used' =>
+        match loadNodes bucket numpoints m (i + 1) used' rest with
+        | .error e => .error e
+        | .ok ns => .ok (node :: ns)
 
 def load (realspec maxbucket : Int) : List Int → Except String Tree
   | version1 :: realspec1 :: bucket :: numpoints :: treesize :: cost :: toks =>
@@ -242,7 +262,7 @@ def load (realspec maxbucket : Int) : List Int → Except String Tree
     else if !(0 ≤ bucket && bucket ≤ maxbucket) then .error "Bad bucket size"
     else if !(0 ≤ treesize && treesize ≤ numpoints) then .error "Bad number of points or tree size"
     else if !(0 ≤ cost) then .error "Bad value for cost"
-    else match loadNodes bucket.toNat numpoints treesize.toNat 0 toks with
+    else match loadNodes bucket.toNat numpoints treesize.toNat 0 [] toks with
       | .error e => .error e
       | .ok ns => .ok { bucket := bucket, numpoints := numpoints, cost := cost, nodes := ns }
   | _ => .error "Bad header"
@@ -313,16 +333,19 @@ def loadNodeBin (bucket : Nat) (bs : List Nat) : Except String (Node × List Nat
       | some (ls, rest1) => .ok (.leaf ls, rest1)
       | none => .error "short read"
 
-def loadNodesBin (bucket : Nat) (numpoints : Int) : Nat → Nat → List Nat → Except String (List Node)
-  | 0, _, _ => .ok []
-  | m + 1, i, bs =>
+def loadNodesBin (bucket : Nat) (numpoints : Int) : Nat → Nat → List Int → List Nat → Except String (List Node)
+  | 0, _, _, _ => .ok []
+  | m + 1, i, used, bs =>
     match loadNodeBin bucket bs with
     | .error e => .error e
     | .ok (node, rest) =>
       if !(nodeCheck numpoints (i : Int) node) then .error "Bad node" else
-      match loadNodesBin bucket numpoints m (i + 1) rest with
-      | .error e => .error e
-      | .ok ns => .ok (node :: ns)
+      match claimNode used node with
+      | none => .error "Bad child pointers"
+      | some used' =>
+        match loadNodesBin bucket numpoints m (i + 1) used' rest with
+        | .error e => .error e
+        | .ok ns => .ok (node :: ns)
 
 def loadBin (realspec maxbucket : Int) (bs : List Nat) : Except String Tree :=
   if bs.take 16 != magic then .error "Bad ID" else
@@ -333,9 +356,97 @@ def loadBin (realspec maxbucket : Int) (bs : List Nat) : Except String Tree :=
     else if !(0 ≤ bucket && bucket ≤ maxbucket) then .error "Bad bucket size"
     else if !(0 ≤ treesize && treesize ≤ numpoints) then .error "Bad number of points or tree size"
     else if !(0 ≤ cost) then .error "Bad value for cost"
-    else match loadNodesBin bucket.toNat numpoints treesize.toNat 0 rest with
+    else match loadNodesBin bucket.toNat numpoints treesize.toNat 0 [] rest with
       | .error e => .error e
       | .ok ns => .ok { bucket := bucket, numpoints := numpoints, cost := cost, nodes := ns }
   | _ => .error "short read"
+
+end GeoVerif.VPTree
+
+/-! ## `Initialize` / `init`: the construction of the tree -/
+namespace GeoVerif.VPTree
+
+/-- `item = pair<dist_t, int>` during the construction: distance from the current vantage point, point index -/
+abbrev IdItem := Int × Nat
+
+/-- `operator<` of `std::pair` -/
+def ltId (a b : IdItem) : Bool := a.1 < b.1 || (a.1 == b.1 && a.2 < b.2)
+
+/-- `std::max_element`: position and value of the first element that no other element exceeds -/
+def maxFrom (best : IdItem) (bi : Nat) : Nat → List IdItem → Nat × IdItem
+  | _, [] => (bi, best)
+  | i, x :: xs => if ltId best x then maxFrom x i (i + 1) xs else maxFrom best bi (i + 1) xs
+
+def maxElement : List IdItem → Nat × IdItem
+  | [] => (0, (0, 0))
+  | x :: xs => maxFrom x 0 1 xs
+
+/-- `*std::min_element` -/
+def minFrom (best : IdItem) : List IdItem → IdItem
+  | [] => best
+  | x :: xs => if ltId x best then minFrom x xs else minFrom best xs
+
+def minElement : List IdItem → IdItem
+  | [] => (0, 0)
+  | x :: xs => minFrom x xs
+
+def insId (x : IdItem) : List IdItem → List IdItem
+  | [] => [x]
+  | y :: ys => if ltId x y then x :: y :: ys else y :: insId x ys
+
+/-- `std::sort` on pairs -/
+def sortId (l : List IdItem) : List IdItem := l.foldr insId []
+
+/-- one admissible `std::nth_element`: the full sort.  (The pair order is total on items with distinct point indices, so
+    the *sets* before and after the `nth` position — all the construction depends on — are the same for every
+    implementation.) -/
+def nthSort (_nth : Nat) (l : List IdItem) : List IdItem := sortId l
+
+/-- `std::swap(ids[l], ids[i])` on the range `ids[l … u)`, `i` relative to `l` (`i` outside the range: unchanged) -/
+def swapFront (r : List IdItem) (i : Nat) : List IdItem :=
+  match r, i with
+  | [], _ => []
+  | x :: xs, 0 => x :: xs
+  | x :: xs, j + 1 =>
+    match xs[j]? with
+    | some y => y :: xs.set j x
+    | none => x :: xs
+
+/--
+`init(pts, dist, bucket, tree, ids, cost, l, u, vp)` on the range `r = ids[l … u)` with `vp` relative to `l`; returns the
+tree with the nodes of the subtree appended (children before the parent), the cost counter and the index of the node
+(`-1` for an empty range).  `nth k` stands for `std::nth_element(first, first + k, last)`; `d i j = dist(pts[i], pts[j])`.
+Fuel: the length of the range (every recursive call is on a strictly shorter range).
+-/
+def initAux (nth : Nat → List IdItem → List IdItem) (d : Nat → Nat → Int) (bucket : Nat) :
+    Nat → Array Node → Nat → List IdItem → Nat → Array Node × Nat × Int
+  | 0, tree, cost, _, _ => (tree, cost, -1)
+  | f + 1, tree, cost, r, vp =>
+    if r.isEmpty then (tree, cost, -1)                                        -- `u == l`
+    else if r.length > (if bucket = 0 then 1 else bucket) then
+      match swapFront r vp with                                               -- vantage point to the front
+      | [] => (tree, cost, -1)
+      | (_, v) :: rest =>
+        -- `m - (l + 1)` with `m = (u + l + 1) / 2`
+        let k := (r.length + 1) / 2 - 1
+        let s := nth k (rest.map fun it => (d v it.2, it.2))                  -- distances from `v`, then the partition
+        let h0 := s.take k
+        let h1 := s.drop k
+        let a := if k = 0 then (tree, cost + rest.length, (-1 : Int))         -- `m > l + 1`: child[0] possibly empty
+                 else initAux nth d bucket f tree (cost + rest.length) h0 (maxElement h0).1
+        let b := initAux nth d bucket f a.1 a.2.1 h1 (maxElement h1).1
+        (b.1.push (.inner v (if k = 0 then 0 else (minElement h0).1) (if k = 0 then 0 else (maxElement h0).2.1) a.2.2
+                     (match h1 with | [] => 0 | x :: _ => x.1) (maxElement h1).2.1 b.2.2),
+         b.2.1, (b.1.size : Int))
+    else if bucket = 0 then
+      (tree.push (.inner (match r with | [] => 0 | x :: _ => x.2) 0 0 (-1) 0 0 (-1)), cost, (tree.size : Int))
+    else
+      (tree.push (.leaf ((sortId r).map (fun it => (it.2 : Int)) ++ List.replicate (bucket - r.length) (-1))), cost,
+       (tree.size : Int))
+
+/-- `Initialize(pts, dist, bucket)` for `n = pts.size()` points: `ids[k] = (0, k)`, first vantage point `n / 2` -/
+def init (nth : Nat → List IdItem → List IdItem) (d : Nat → Nat → Int) (bucket n : Nat) : Tree :=
+  let r := initAux nth d bucket n #[] 0 ((List.range n).map fun k => ((0 : Int), k)) (n / 2)
+  { bucket := bucket, numpoints := n, cost := r.2.1, nodes := r.1.toList }
 
 end GeoVerif.VPTree
